@@ -48,7 +48,31 @@ def _pure(job):
             return round(math.exp(rng.uniform(math.log(lo), math.log(hi))), rng.choice([0, 1, 2, 4]))  or lo
         return float(rng.choice([1, 10, 100, 1000, 0.1, 0.01, 0.001, 250, 0.5, 3, 7]))
 
-    for _ in range(job['n']):
+    import decimal
+    ctx0 = decimal.getcontext()
+    ctx_before = (ctx0.prec, ctx0.rounding, ctx0.Emin, ctx0.Emax, ctx0.capitals, ctx0.clamp)
+    arr_ = np.array([100.0, 101.5, 99.25, 102.0, 103.5, 101.0])
+    neighbours = [
+        lambda: ju.kelly_criterion(rng.choice([0.4, 0.55, 0.6]), rng.choice([1.5, 2, 3.0])),
+        lambda: ju.estimate_risk(rnum(1, 1e4), rnum(1, 1e4)),
+        lambda: ju.qty_to_size(rnum(1e-3, 1e3), rnum(1e-2, 1e5)),
+        lambda: ju.prices_to_returns(arr_.copy()),
+        lambda: ju.z_score(arr_.copy()),
+        lambda: ju.streaks(arr_.copy()),
+        lambda: ju.strictly_increasing(arr_.copy(), 3),
+        lambda: ju.crossed(arr_.copy(), 101.0),
+        lambda: ju.combinations_without_repeat(np.arange(4)),
+        lambda: ju.timeframe_to_one_minutes(rng.choice(['1m', '15m', '4h'])),
+    ]
+    for it in range(job['n']):
+        if it % 40 == 0:
+            # the other helpers of the module are in use at the same time (a strategy that sizes with the Kelly fraction ...):
+            # none of them may change what the sizing and decimal helpers return afterwards
+            try:
+                rng.choice(neighbours)()
+                c('neighbour_helper_calls')
+            except Exception:
+                c('neighbour_helper_raised')
         # ---- size_to_qty --------------------------------------------------------------------
         cap = rnum(1, 1e7)
         price = rnum(1e-6, 1e6)
@@ -143,6 +167,12 @@ def _pure(job):
             bad('limit_stop_loss_exceeds_max_risk', f'limit_stop_loss({e2!r}, {s2!r}, {typ}, {mx}) = {ls!r}', e=e2, s=s2)
         if (typ == 'long') != (ls <= e2) and ls != e2:
             bad('limit_stop_loss_wrong_side', f'limit_stop_loss({e2!r}, {s2!r}, {typ}, {mx}) = {ls!r}', e=e2, s=s2)
+    ctx1 = decimal.getcontext()
+    ctx_after = (ctx1.prec, ctx1.rounding, ctx1.Emin, ctx1.Emax, ctx1.capitals, ctx1.clamp)
+    c('decimal_context_checks')
+    if ctx_after != ctx_before:
+        bad('decimal_context_changed', f'the process-wide decimal context changed from {ctx_before} to {ctx_after} while the helpers '
+            f'ran: every later decimal addition / subtraction in this process is rounded differently')
     return {'viol': viol, 'cnt': cnt, 'sigs': [repr(s) for s in sigs]}
 
 
